@@ -74,7 +74,26 @@ func StartServer(base string) (*Server, error) {
 }
 
 // StartServerAt starts a server on an existing data directory (dir != "") or a fresh one.
+// The TCP port is picked by binding :0 and releasing it, which can race with other test
+// processes doing the same; a start that fails because the port was taken is retried with
+// another port.
 func StartServerAt(base, dir string) (*Server, error) {
+	var s *Server
+	var err error
+	for attempt := 0; attempt < 6; attempt++ {
+		s, err = startServerAtOnce(base, dir)
+		if err == nil || !strings.Contains(err.Error(), "already in use") {
+			return s, err
+		}
+		if s != nil && dir == "" {
+			dir = s.Dir // keep using the directory the failed attempt created
+		}
+		time.Sleep(time.Duration(50*(attempt+1)) * time.Millisecond)
+	}
+	return s, err
+}
+
+func startServerAtOnce(base, dir string) (*Server, error) {
 	ctx := context.Background()
 	if dir == "" {
 		var err error
@@ -132,9 +151,11 @@ func StartServerAt(base, dir string) (*Server, error) {
 	select {
 	case err := <-werr:
 		if err != nil {
+			s.waitDown()
 			return nil, fmt.Errorf("server start: %w", err)
 		}
 	case err := <-startErr:
+		s.waitDown()
 		return nil, fmt.Errorf("server start: %w", err)
 	case <-time.After(60 * time.Second):
 		return nil, errors.New("server start timed out")
@@ -157,6 +178,17 @@ func StartServerAt(base, dir string) (*Server, error) {
 		return nil, fmt.Errorf("ping: %w", err)
 	}
 	return s, nil
+}
+
+// waitDown waits (bounded) until a failed start has released everything it took, so the data
+// directory can be used by a retry.
+func (s *Server) waitDown() {
+	s.ctl.Stop()
+	select {
+	case <-s.done:
+	case <-time.After(30 * time.Second):
+	}
+	_ = os.RemoveAll(filepath.Dir(s.Sock))
 }
 
 // Stop shuts the server down and waits for it; the data directory is kept.
